@@ -245,17 +245,25 @@ def run_property(prop, tier, spec, replay=None):
             raise Broken(str(e) + '\n' + e.err)
         ctx = Ctx(tier, sets)
         results = []
+        broken = []
         for rule in spec['rules']:
-            if replay and replay.get('rule') and not rule.__name__.lower().startswith(replay['rule'].lower().split('(')[0].replace('-', '_')):
-                pass
-            r = rule(ctx)
-            if r is None:
-                continue
-            rs = r if isinstance(r, list) else [r]
-            for x in rs:
-                if not x.violations:
-                    x.check_floors()        # lost anchors / instance counts: broken, unless real violations are reported anyway
-                results.append(x)
+            try:
+                r = rule(ctx)
+                if r is None:
+                    continue
+                rs = r if isinstance(r, list) else [r]
+                for x in rs:
+                    if not x.violations:
+                        x.check_floors()        # lost anchors / instance counts: broken, unless real violations are reported anyway
+                    results.append(x)
+            except Broken as e:
+                broken.append(str(e))
+        if broken and not any(x.violations for x in results):
+            raise Broken('; '.join(broken))
+        for bmsg in broken:
+            # another rule of this property already reports a violation on this tree: the property is decided (violated);
+            # the rule that could not analyse the changed code is named for diagnosis
+            print('NOTE property=%s: a rule could not analyse this tree: %s' % (prop, bmsg[:300]), file=sys.stderr)
     except Broken as e:
         print('BROKEN property=%s: %s' % (prop, e), file=sys.stderr)
         return 2
